@@ -303,25 +303,38 @@ def _run(case):
         return [np.asarray(getattr(o, a), float) for a in ("Sigma", "Lambda", "ln_det_Sigma", "M", "b") if getattr(o, a, None) is not None and not callable(getattr(o, a))]
 
     def _ledger_check(targets, where):
-        for o in list(objs) + list(conds):
+        """targets: objects that the step was allowed to change in place.  Entries are keyed by pool position, so if an
+        operation handed out an object that is already pooled (a memoised result), changing it through one handle
+        is seen on the other."""
+        entries = [("o", k, o) for k, o in enumerate(objs)] + [("c", k, o) for k, o in enumerate(conds)]
+        tpos = set()
+        for kind_, k, o in entries:
             if any(o is t for t in targets):
-                ledger.pop(id(o), None)
-            if id(o) in ledger:
-                ref_obj, ref = ledger[id(o)]
+                tpos.add((kind_, k))
+        # a target is identified by the FIRST pool position holding that object (the handle the step was applied to
+        # is resolved by the caller through `inplace_positions`)
+        for kind_, k, o in entries:
+            key_ = (kind_, k)
+            is_target = key_ in inplace_positions
+            if is_target:
+                ledger.pop(key_, None)
+            if key_ in ledger:
+                ref = ledger[key_]
                 try:
                     cur = _probe(o)
                 except Exception:
                     continue
                 same = len(cur) == len(ref) and all(a.shape == b_.shape and np.allclose(a, b_, rtol=1e-10, atol=1e-10, equal_nan=True) for a, b_ in zip(cur, ref))
                 if not same:
-                    fails.append(Failure(f"after[{where}]:bystander_changed", f"step ({where}) changed an object that was not its target (aliasing / in-place update of an operand)"))
-                    ledger[id(o)] = (o, cur)
+                    fails.append(Failure(f"after[{where}]:bystander_changed", f"step ({where}) changed a pooled object that was not its target (aliasing / memoised result / in-place update of an operand)"))
+                    ledger[key_] = cur
             else:
                 try:
-                    ledger[id(o)] = (o, _probe(o))
+                    ledger[key_] = _probe(o)
                 except Exception:
                     pass
 
+    inplace_positions = set()
     _ledger_check([], "init")
 
     class _Stop(Exception):
@@ -361,6 +374,7 @@ def _run(case):
         kf_flag = {}
         n_before = len(objs)
         inplace_targets = []
+        inplace_positions.clear()
         if op in ("multiply", "hadamard"):
             m = objs[stp["i"]]
             f = libx.make_factor(stp["fkind"], stp["f"])
@@ -388,6 +402,7 @@ def _run(case):
             m = objs[stp["i"]]
             lib(fails, "normalize", lambda: m.normalize())
             inplace_targets.append(m)
+            inplace_positions.add(("o", stp["i"]))
             stats["producing"] += 1
         elif op == "get_density":
             m = objs[stp["i"]]
@@ -418,6 +433,7 @@ def _run(case):
             new = libx.make_measure(stp.get("nkind", "pdf"), stp["new"])
             lib(fails, "update", lambda: m.update(jnp.array(stp["uidx"]), new))
             inplace_targets.append(m)
+            inplace_positions.add(("o", stp["i"]))
             stats["producing"] += 1
         elif op == "linear_sum":
             m = objs[stp["i"]]
@@ -442,8 +458,16 @@ def _run(case):
                 stats["producing"] += 1
         elif op == "update_Sigma":
             c = conds[stp["j"]]
+            # a compatible pooled density, to exercise the conditional before and after the in-place change
+            probe_px = next((o for o in objs if hasattr(o, "sample") and int(o.D) == int(c.Dx) and (int(o.R) == 1 or int(c.R) == 1)), None)
+            if probe_px is not None:
+                lib(fails, "update_Sigma.warm_joint", lambda: (c.affine_joint_transformation(probe_px), c.affine_conditional_transformation(probe_px)))
             lib(fails, "update_Sigma", lambda: c.update_Sigma(J(stp["S"])))
             inplace_targets.append(c)
+            inplace_positions.add(("c", stp["j"]))
+            if probe_px is not None:
+                for meth in ("affine_joint_transformation", "affine_conditional_transformation", "affine_marginal_transformation"):
+                    produce(f"update_Sigma.then_{meth}", lambda: getattr(c, meth)(probe_px), lambda: getattr(_clone_cond(c), meth)(_clone_measure(probe_px)))
             stats["producing"] += 1
         elif op == "approx":
             m = objs[stp["i"]]
@@ -549,8 +573,136 @@ def _labels(case):
     return out
 
 
+# ------------------------------------------------------------------------------------------ repeat, mutate, re-read
+_RM_OPS = ["get_density", "slice", "product", "multiply", "hadamard", "get_marginal", "condition_on", "cond_x", "linear_sum",
+           "joint", "marginal_t", "conditional_t"]
+
+
+def _pool_rm(tier):
+    base = [(1, 1), (2, 2), (3, 1), (2, 3), (3, 2), (4, 1)]
+    if tier == "thorough":
+        base += [(4, 3), (5, 2), (2, 1), (1, 3)]
+    return base
+
+
+def _strategy_rm(shapes):
+    @st.composite
+    def s(draw):
+        D, R = draw(st.sampled_from(shapes))
+        op = draw(st.sampled_from(_RM_OPS))
+        kappa = draw(st.sampled_from([10.0, 50.0]))
+        mkind = draw(st.sampled_from(gen.MEASURE_KINDS if op in ("get_density", "slice", "product", "multiply", "hadamard") else ["pdf", "diag_pdf"]))
+        ck = draw(st.sampled_from(["full", "diag", "identity", "identity_diag"]))
+        Dy = D if ck.startswith("identity") else draw(st.integers(1, 3))
+        fk = draw(st.sampled_from(gen.FACTOR_KINDS))
+        k = draw(st.integers(1, R))
+        return {"D": D, "R": R, "op": op, "mkind": mkind, "cache": draw(st.sampled_from(gen.CACHES)),
+                "m": draw(gen.measure_params(mkind, R, D, kappa)),
+                "c": draw(gen.cond_params(ck, 1, D, Dy, kappa)), "px": draw(gen.measure_params("pdf", R, D, kappa)),
+                "fkind": fk, "f": draw(gen.factor_params(fk, R if op == "hadamard" else 1, D, kappa)), "update_full": draw(st.booleans()),
+                "idx": draw(gen.index_array(R, 1, 3)), "dims": draw(gen.perm_prefix(D, 1, max(1, D - 1))),
+                "x": draw(gen.arr((2, D), -2, 2)), "W": draw(gen.spd(R, D, kappa=20.0, lam_lo=0.5, lam_hi=2.0))[:, :1, :],
+                "new": draw(gen.measure_params("pdf", k, 8, kappa)), "uidx": list(draw(st.permutations(list(range(R))))[:k]),
+                "Snew": draw(gen.spd(1, 8, kappa=kappa)), "mutator": draw(st.sampled_from(["normalize", "update", "update"]))}
+    return s()
+
+
+def _rm_probe(o):
+    from ..libx import J
+
+    if hasattr(o, "evaluate_ln"):
+        D = int(o.D)
+        X = np.stack([np.full(D, 0.3), np.linspace(-0.7, 0.9, D)])
+        out = [np.asarray(o.evaluate_ln(J(X)), float)]
+        for a in ("mu", "Sigma"):
+            v = getattr(o, a, None)
+            if v is not None:
+                out.append(np.asarray(v, float))
+        return out
+    return [np.asarray(getattr(o, a), float) for a in ("Sigma", "Lambda", "ln_det_Sigma", "M", "b") if getattr(o, a, None) is not None and not callable(getattr(o, a))]
+
+
+def _rm_same(a, b):
+    return len(a) == len(b) and all(x.shape == y.shape and np.allclose(x, y, rtol=1e-9, atol=1e-9, equal_nan=True) for x, y in zip(a, b))
+
+
+def _run_rm(case):
+    """r1 = op(operands); r2 = op(operands) again; mutate r1 in place; r2, the operands and a third call must be untouched."""
+    from .. import libx
+    from ..libx import J
+    import jax.numpy as jnp
+    from gaussian_toolbox import pdf as pdfmod
+
+    fails = []
+    op, D, R = case["op"], case["D"], case["R"]
+    if op == "condition_on" and D < 2:
+        return fails
+    ok, m = lib(fails, "construct_measure", libx.make_measure, case["mkind"], case["m"], case["cache"])
+    ok2, cu = lib(fails, "construct_cond", libx.make_cond, case["c"])
+    ok3, px = lib(fails, "construct_px", libx.make_measure, "pdf", case["px"])
+    if not (ok and ok2 and ok3):
+        return fails
+    c = cu[0]
+    f = libx.make_factor(case["fkind"], case["f"])
+    x = J(case["x"])
+    idx = jnp.array(case["idx"])
+    dims = jnp.array(case["dims"])
+    calls = {
+        "get_density": (lambda: m.get_density(), [m]),
+        "slice": (lambda: m.slice(idx), [m]),
+        "product": (lambda: m.product(), [m]),
+        "multiply": (lambda: m.multiply(f, update_full=case["update_full"]), [m, f]),
+        "hadamard": (lambda: m.hadamard(f, update_full=case["update_full"]), [m, f]),
+        "get_marginal": (lambda: m.get_marginal(dims), [m]),
+        "condition_on": (lambda: m.condition_on(dims), [m]),
+        "cond_x": (lambda: c(x), [c]),
+        "linear_sum": (lambda: m.get_density_of_linear_sum(J(case["W"])), [m]),
+        "joint": (lambda: c.affine_joint_transformation(px), [c, px]),
+        "marginal_t": (lambda: c.affine_marginal_transformation(px), [c, px]),
+        "conditional_t": (lambda: c.affine_conditional_transformation(px), [c, px]),
+    }
+    fn, operands = calls[op]
+    ok, r1 = lib(fails, f"{op}", fn)
+    ok2, r2 = lib(fails, f"{op}", fn)
+    if not (ok and ok2):
+        return fails
+    before = {"r2": _rm_probe(r2), "ops": [_rm_probe(o) for o in operands]}
+    # mutate r1 in place with whatever in-place operation its type offers
+    tag = f"{op}:then_mutate"
+    if hasattr(r1, "update_Sigma") and not hasattr(r1, "evaluate_ln"):
+        Dy_r = int(r1.Dy)
+        Sn = np.asarray(case["Snew"], float)[:, :Dy_r, :Dy_r] * 1.7
+        ok, _ = lib(fails, tag + ".update_Sigma", lambda: r1.update_Sigma(J(np.tile(Sn, (int(r1.R), 1, 1)))))
+    elif isinstance(r1, pdfmod.GaussianPDF) and case["mutator"] == "update":
+        Dr, Rr = int(r1.D), int(r1.R)
+        newp = {"Sigma": np.asarray(case["new"]["Sigma"], float)[:1, :Dr, :Dr] * 1.3, "mu": np.asarray(case["new"]["mu"], float)[:1, :Dr] + 0.7}
+        kind_new = "diag_pdf" if isinstance(r1, pdfmod.GaussianDiagPDF) else "pdf"
+        if kind_new == "diag_pdf":
+            newp["Sigma"] = newp["Sigma"] * np.eye(Dr)[None]
+        d = libx.make_measure(kind_new, newp)
+        ok, _ = lib(fails, tag + ".update", lambda: r1.update(jnp.array([Rr - 1]), d))
+    elif hasattr(r1, "normalize"):
+        ok, _ = lib(fails, tag + ".normalize", lambda: (r1.normalize(), setattr(r1, "ln_beta", r1.ln_beta - 0.5))[0])
+    else:
+        return fails
+    if not ok:
+        return fails
+    if not _rm_same(_rm_probe(r2), before["r2"]):
+        fails.append(Failure(f"{op}:second_result_changed", f"mutating the first result of {op} in place changed the result of a second, independent call"))
+    for o, ref in zip(operands, before["ops"]):
+        if not _rm_same(_rm_probe(o), ref):
+            fails.append(Failure(f"{op}:operand_changed", f"mutating the result of {op} in place changed an operand ({type(o).__name__})"))
+    ok, r3 = lib(fails, f"{op}.third_call", fn)
+    if ok and not _rm_same(_rm_probe(r3), before["r2"]):
+        fails.append(Failure(f"{op}:later_call_changed", f"after mutating an earlier result in place, {op} on the same operands returns something else"))
+    return fails
+
+
 SUBS = [
     Sub("histories", _pool, _strategy, _run, _nontrivial, _labels,
         examples={"quick": 100, "thorough": 400}, shards={"quick": 16, "thorough": 32},
         rule=">=2 producing steps and >=1 low-rank/linear/constant product on an operand with cached covariance"),
+    Sub("repeat_mutate", _pool_rm, _strategy_rm, _run_rm, lambda c: c["R"] * c["D"] >= 2,
+        lambda c: [f"op={c['op']}", f"mkind={c['mkind']}", f"mutator={c['mutator']}"],
+        examples={"quick": 80, "thorough": 400}, shards={"quick": 6, "thorough": 10}, rule="R*D>=2"),
 ]
